@@ -48,6 +48,8 @@ pub struct Value { _p: u8 }
 impl Clone for Value { #[verifier::external_body] fn clone(&self) -> (r: Self) ensures r == *self { Value { _p: 0 } } }
 impl Copy for Value {}
 impl Value {
+    #[verifier::external_body]
+    fn none_value() -> Value { unimplemented!() }
     pub uninterp spec fn nil() -> Value;                       // Value::None, the language's nil (Value::default())
     pub uninterp spec fn closure(g: Gc<ObjClosure>) -> Value;
     pub uninterp spec fn as_fiber(&self) -> Option<Gc<RefCell<ObjFiber>>>;
@@ -80,7 +82,7 @@ impl StackS {
 }
 
 //@struct file=yarel/src/object.rs name=CallFrame map "*const u8" => "usize"
-//@struct file=yarel/src/object.rs name=ObjFiber keepfields=caller,stack,frames,handling_exception,call_arity,return_ip,return_frame_count map "Stack<Value, STACK_MAX>" => "StackS" map "*const u8" => "usize"
+//@struct file=yarel/src/object.rs name=ObjFiber keepfields=caller,stack,frames,handling_exception,call_arity,return_ip,return_frame_count,pending_frame_count,pending_exception,error_ip map "Stack<Value, STACK_MAX>" => "StackS" map "*const u8" => "usize"
 impl ObjFiber {
     //@fn file=yarel/src/object.rs path=ObjFiber::has_finished ret=r
     //@  ensures r == (self.frames@.len() == 0)
@@ -147,7 +149,7 @@ impl Vm {
     fn clear_caller(&mut self, current: Option<Root<RefCell<ObjFiber>>>)
         requires current matches Some(c) && old(self).heap.dom().contains(c.id())
         ensures old(self).handles_same(final(self)),
-            final(self).heap == old(self).heap.insert(current->0.id(), ObjFiber { caller: None, stack: old(self).heap[current->0.id()].stack, frames: old(self).heap[current->0.id()].frames, handling_exception: old(self).heap[current->0.id()].handling_exception, call_arity: old(self).heap[current->0.id()].call_arity, return_ip: old(self).heap[current->0.id()].return_ip, return_frame_count: old(self).heap[current->0.id()].return_frame_count }),
+            final(self).heap == old(self).heap.insert(current->0.id(), ObjFiber { caller: None, stack: old(self).heap[current->0.id()].stack, frames: old(self).heap[current->0.id()].frames, handling_exception: old(self).heap[current->0.id()].handling_exception, call_arity: old(self).heap[current->0.id()].call_arity, return_ip: old(self).heap[current->0.id()].return_ip, return_frame_count: old(self).heap[current->0.id()].return_frame_count, pending_frame_count: old(self).heap[current->0.id()].pending_frame_count, pending_exception: old(self).heap[current->0.id()].pending_exception, error_ip: old(self).heap[current->0.id()].error_ip }),
     { unimplemented!() }
 
     // operand-stack helpers of the ACTIVE fiber (vm.rs push/pop/poke: proved against Stack's contract in unit `exc`)
@@ -155,21 +157,21 @@ impl Vm {
     fn pop(&mut self) -> (r: Value)
         requires old(self).fiber is Some, old(self).heap.dom().contains(old(self).active_id()), old(self).active().stack.view.len() > 0
         ensures old(self).handles_same(final(self)), r == old(self).active().stack.view.last(),
-            final(self).heap == old(self).heap.insert(old(self).active_id(), ObjFiber { caller: old(self).active().caller, stack: StackS { view: old(self).active().stack.view.drop_last() }, frames: old(self).active().frames, handling_exception: old(self).active().handling_exception, call_arity: old(self).active().call_arity, return_ip: old(self).active().return_ip, return_frame_count: old(self).active().return_frame_count }),
+            final(self).heap == old(self).heap.insert(old(self).active_id(), ObjFiber { caller: old(self).active().caller, stack: StackS { view: old(self).active().stack.view.drop_last() }, frames: old(self).active().frames, handling_exception: old(self).active().handling_exception, call_arity: old(self).active().call_arity, return_ip: old(self).active().return_ip, return_frame_count: old(self).active().return_frame_count, pending_frame_count: old(self).active().pending_frame_count, pending_exception: old(self).active().pending_exception, error_ip: old(self).active().error_ip }),
             forall|i: int| #![trigger old(self).heap.dom().contains(i)] old(self).heap.dom().contains(i) && i != old(self).active_id() ==> final(self).heap.dom().contains(i) && final(self).heap[i] == old(self).heap[i],
     { unimplemented!() }
     #[verifier::external_body]
     fn push(&mut self, value: Value)
         requires old(self).fiber is Some, old(self).heap.dom().contains(old(self).active_id()), old(self).active().stack.view.len() < STACK_MAX
         ensures old(self).handles_same(final(self)),
-            final(self).heap == old(self).heap.insert(old(self).active_id(), ObjFiber { caller: old(self).active().caller, stack: StackS { view: old(self).active().stack.view.push(value) }, frames: old(self).active().frames, handling_exception: old(self).active().handling_exception, call_arity: old(self).active().call_arity, return_ip: old(self).active().return_ip, return_frame_count: old(self).active().return_frame_count }),
+            final(self).heap == old(self).heap.insert(old(self).active_id(), ObjFiber { caller: old(self).active().caller, stack: StackS { view: old(self).active().stack.view.push(value) }, frames: old(self).active().frames, handling_exception: old(self).active().handling_exception, call_arity: old(self).active().call_arity, return_ip: old(self).active().return_ip, return_frame_count: old(self).active().return_frame_count, pending_frame_count: old(self).active().pending_frame_count, pending_exception: old(self).active().pending_exception, error_ip: old(self).active().error_ip }),
             forall|i: int| #![trigger old(self).heap.dom().contains(i)] old(self).heap.dom().contains(i) && i != old(self).active_id() ==> final(self).heap.dom().contains(i) && final(self).heap[i] == old(self).heap[i],
     { unimplemented!() }
     #[verifier::external_body]
     fn poke(&mut self, depth: usize, value: Value)
         requires old(self).fiber is Some, old(self).heap.dom().contains(old(self).active_id()), depth < old(self).active().stack.view.len()
         ensures old(self).handles_same(final(self)),
-            final(self).heap == old(self).heap.insert(old(self).active_id(), ObjFiber { caller: old(self).active().caller, stack: StackS { view: old(self).active().stack.view.update(old(self).active().stack.view.len() - 1 - depth, value) }, frames: old(self).active().frames, handling_exception: old(self).active().handling_exception, call_arity: old(self).active().call_arity, return_ip: old(self).active().return_ip, return_frame_count: old(self).active().return_frame_count }),
+            final(self).heap == old(self).heap.insert(old(self).active_id(), ObjFiber { caller: old(self).active().caller, stack: StackS { view: old(self).active().stack.view.update(old(self).active().stack.view.len() - 1 - depth, value) }, frames: old(self).active().frames, handling_exception: old(self).active().handling_exception, call_arity: old(self).active().call_arity, return_ip: old(self).active().return_ip, return_frame_count: old(self).active().return_frame_count, pending_frame_count: old(self).active().pending_frame_count, pending_exception: old(self).active().pending_exception, error_ip: old(self).active().error_ip }),
             forall|i: int| #![trigger old(self).heap.dom().contains(i)] old(self).heap.dom().contains(i) && i != old(self).active_id() ==> final(self).heap.dom().contains(i) && final(self).heap[i] == old(self).heap[i],
     { unimplemented!() }
     // ip := saved ip of the active fiber's current frame (plus active chunk / module, not modelled)
@@ -244,6 +246,7 @@ impl Vm {
     // calling fiber becomes active again and the body's return value becomes the result of its `call` (the top slot of
     // ITS stack); the finished fiber keeps no frame and no caller. At the end of the outermost fiber the run ends.
     //@fn file=yarel/src/vm.rs path=Vm::return_impl ret=r props=C09,C05,C16
+    //@  subst "Value::None" => "Value::none_value()"
     //@  requires old(self).wf(), old(self).fiber is Some, old(self).active().frames@.len() > 0, old(self).active().stack.view.len() > old(self).active().frames@.last().slot_base, old(self).active().stack.view.len() <= STACK_MAX
     //@  requires old(self).active().frames@.len() == 1 && old(self).active().caller is None ==> old(self).active().stack.view.len() >= 2
     //@  requires old(self).active().caller matches Some(c) ==> old(self).heap.dom().contains(c.id()) && c.id() != old(self).active_id() && old(self).heap[c.id()].stack.view.len() > 0 && old(self).heap[c.id()].frames@.len() > 0
@@ -252,6 +255,7 @@ impl Vm {
     //@  ensures @a_finished_fiber_keeps_no_frame_and_no_caller (old(self).active().frames@.len() == 1 && old(self).active().caller is Some) ==> final(self).heap[old(self).active_id()].frames@.len() == 0 && final(self).heap[old(self).active_id()].caller is None && final(self).active().frames == old(self).heap[old(self).active().caller->0.id()].frames
     //@  ensures @a_finished_fiber_keeps_none_of_its_values (old(self).active().frames@.len() == 1 && old(self).active().caller is Some) ==> final(self).heap[old(self).active_id()].stack.view.len() == 0
     //@  ensures @a_frame_that_is_left_takes_the_return_it_had_parked_along final(self).heap[old(self).active_id()].return_ip is Some ==> final(self).heap[old(self).active_id()].return_frame_count != old(self).active().frames@.len()
+    //@  ensures @a_frame_that_is_left_takes_the_exception_its_finally_block_was_entered_with_along (old(self).active().frames@.len() > 1 && final(self).handling_exception) ==> final(self).heap[old(self).active_id()].pending_frame_count != old(self).active().frames@.len()
     //@  ensures @the_end_of_the_outermost_fiber_ends_the_run (old(self).active().frames@.len() == 1 && old(self).active().caller is None) ==> (r matches Ok(Some(_))) && final(self).fiber == old(self).fiber && final(self).active().frames@.len() == 0
     //@  ensures @other_fibers_untouched forall|i: int| old(self).heap.dom().contains(i) && i != old(self).active_id() && !(old(self).active().caller matches Some(c) && i == c.id()) ==> final(self).heap.dom().contains(i) && final(self).heap[i] == old(self).heap[i]
     //@end
